@@ -404,9 +404,18 @@ func ruleC04Accept2(id string) func(*Checker) {
 			}
 			// exact equality with an allow-listed entry is also a way in
 			if est == nil {
+				fromAllowList := func(v ssa.Value) bool {
+					for w := range p.backSlice(v, 0) {
+						if fa, ok := w.(*ssa.FieldAddr); ok && fieldOf(fa) != nil && strings.Contains(strings.ToLower(fieldOf(fa).Name()), "allow") {
+							return true
+						}
+					}
+					return false
+				}
 				eqT, _ := condEdges(g, func(v ssa.Value) bool {
 					bo, ok := v.(*ssa.BinOp)
-					return ok && bo.Op == token.EQL && isStringType(bo.X.Type())
+					// … with an entry of the allow list: any other string equality (Base(target) == target) is not a way in
+					return ok && bo.Op == token.EQL && isStringType(bo.X.Type()) && (fromAllowList(bo.X) || fromAllowList(bo.Y))
 				})
 				if guarded(r.Block(), eqT) {
 					c.pass(id, gname, fmt.Sprintf("return true %d", i), p.Pos(r.Pos()), "exact match with an allow-listed target")
